@@ -346,7 +346,13 @@ impl Engine for C14 {
                 for l in [16u64, 10, 32, 256] {
                     if rng.chance(1, 2) {
                         let v = if rng.chance(1, 4) {
-                            refcbor::Item::text(["application/cose; cose-type=\"cose-sign1\"", "application/cose; cose-type=\"cose-mac0\"", "application/cose-key"][rng.below(3)])
+                            refcbor::Item::text(
+                                [
+                                    "application/cose; cose-type=\"cose-sign1\"",
+                                    "application/cose; cose-type=\"cose-mac0\"",
+                                    "application/cose-key",
+                                ][rng.below(3)],
+                            )
                         } else {
                             refcbor::Item::int(f)
                         };
@@ -541,15 +547,17 @@ impl Engine for C14 {
                         }
                     }
                     (Ok(Err(_)), Ok(Some(Err(_)))) => {}
-                    (uv, tv) => return Ok(Some(Violation::new(
-                        "C14.tag-form",
-                        format!(
+                    (uv, tv) => {
+                        return Ok(Some(Violation::new(
+                            "C14.tag-form",
+                            format!(
                             "{}: a decoded value failed to encode: to_vec {:?}, to_tagged_vec {:?}",
                             bty,
                             uv.map(|r| r.is_ok()),
                             tv.map(|r| r.map(|x| x.is_ok()))
                         ),
-                    ))),
+                        )))
+                    }
                 }
             }
         }
@@ -579,10 +587,18 @@ impl Engine for C14 {
             for tg in [24u64, 63, 55799, own, 0] {
                 let mut p = refcbor::head(6, tg);
                 p.extend(refcbor::head(2, u.len() as u64));
-                all.push(Delivery { prefix: p, tags: vec![], kind: "tag-over-bstr-wrapped-body" });
+                all.push(Delivery {
+                    prefix: p,
+                    tags: vec![],
+                    kind: "tag-over-bstr-wrapped-body",
+                });
             }
             // and the bare byte-string wrapping without any tag
-            all.push(Delivery { prefix: refcbor::head(2, u.len() as u64), tags: vec![], kind: "tag-over-bstr-wrapped-body" });
+            all.push(Delivery {
+                prefix: refcbor::head(2, u.len() as u64),
+                tags: vec![],
+                kind: "tag-over-bstr-wrapped-body",
+            });
         }
         let narrowed = |ep: &Endpoint, d: &Delivery| -> Trace {
             let mut n = t.clone();
